@@ -41,14 +41,27 @@ func H_C06_splitcv_MODELNAME() {
 	c06split_MODELNAME(2, 3, true)
 }
 
-func c06split_MODELNAME(N, T int, constVolume bool) {
+// H_C06_concrete_MODELNAME: Storage only (skipped above as a heavy kernel): the same comparison
+// with the REAL kernel on concrete parameter, input and state values (a filling reservoir).
+//vsym:prop=C06 tier=quick ints=int floats=real timeout=60 wall=300 unwind=400
+func H_C06_concrete_MODELNAME() {
+	if "MODELNAME" != "Storage" {
+		vsym.Reach("not-applicable-to-this-model")
+		return
+	}
+	c06splitx_MODELNAME(2, 3, false, true)
+}
+
+func c06split_MODELNAME(N, T int, constVolume bool) { c06splitx_MODELNAME(N, T, constVolume, false) }
+
+func c06splitx_MODELNAME(N, T int, constVolume bool, concrete bool) {
 	name := "MODELNAME"
 	if name == "StorageRouting" {
 		vsym.Note("StorageRouting: hot start is decided at kernel level (H_C06_storage_routing)")
 		vsym.Reach("left-to-kernel-level-harness")
 		return
 	}
-	if wrHeavyNoSummary(name) {
+	if !concrete && wrHeavyNoSummary(name) {
 		vsym.Note("kernel of " + name + " is outside the reach of the executor within the budget: this wrapper is not exercised with its own kernel")
 		vsym.Reach("skipped-heavy-kernel")
 		return
@@ -66,8 +79,10 @@ func c06split_MODELNAME(N, T int, constVolume bool) {
 	}
 	params := w.params(N, []int{2, 3})
 	wrConstrain(name, w, params, N)
-	wrDocumentedRanges(w, params, N)
-	wrNonNegativeUndocumented(w, params, N)
+	if !concrete {
+		wrDocumentedRanges(w, params, N)
+		wrNonNegativeUndocumented(w, params, N)
+	}
 	if len(w.desc.Dimensions) > 0 {
 		w.m.InitialiseDimensions(w.m.FindDimensions(params))
 	}
@@ -76,8 +91,11 @@ func c06split_MODELNAME(N, T int, constVolume bool) {
 	for b := 0; b < N; b++ {
 		for i := 0; i < nI; i++ {
 			for t := 0; t < T; t++ {
-				v := vsym.Float64("input")
-				vsym.Assume(v >= 0 && v <= 1000000)
+				v := 0.5 + 0.25*float64(b) + 0.125*float64(t)
+				if !concrete {
+					v = vsym.Float64("input")
+					vsym.Assume(v >= 0 && v <= 1000000)
+				}
 				if constVolume && w.desc.Inputs[i] == "reachVolume" && t > 0 {
 					v = inputs.Get3(b, i, 0)
 				}
@@ -93,10 +111,19 @@ func c06split_MODELNAME(N, T int, constVolume bool) {
 			if structural && (s == 2 || s == 3 || s >= 4+int(states0.Get2(c, 2))+int(states0.Get2(c, 3))) {
 				continue
 			}
-			states0.Set2(c, s, vsym.Float64("state"))
+			if concrete {
+				states0.Set2(c, s, 0.125)
+				if s == 0 {
+					states0.Set2(c, s, 500000)
+				}
+			} else {
+				states0.Set2(c, s, vsym.Float64("state"))
+			}
 		}
 	}
-	wrConstrainData(name, inputs, states0)
+	if !concrete {
+		wrConstrainData(name, inputs, states0)
+	}
 	// segment [from, to) of the input series, continuing from st (modified in place by Run)
 	seg := func(st data.ND2Float64, from, to int) data.ND3Float64 {
 		in := data.NewArray3DFloat64(N, nI, to-from)
